@@ -64,6 +64,7 @@ def main():
             finally:
                 sh(["git", "-C", "/repo", "checkout", "--", "."])
                 sh([sys.executable, str(VERIF / "tools" / "py2lean.py")])   # regenerated files follow /repo
+                sh([sys.executable, str(VERIF / "tools" / "py2lean_arith.py")])
             r["caught"] = any(v["exit"] == 1 for v in r["checks"].values())
             results.append(r)
             print(json.dumps(r))
